@@ -272,3 +272,56 @@ func C09_Positions() {
 	c09RoundTrip(p, "prog", mode)
 	c09Finish(dis, out, log)
 }
+
+// C09_Tables: the position table and the line-feed table with arbitrary
+// entries (every 63-bit value, so every varint size class and every first
+// byte, including the entry that ends the dump) survive dump and load through
+// each reader behaviour.
+func C09_Tables() {
+	npos := verif.Choice("npos", 2) + 1
+	nlf := verif.Choice("nlf", 3)
+	positions := make([]int, npos)
+	for i := range positions {
+		positions[i] = i
+	}
+	lfs := make([]int, nlf)
+	for i := range lfs {
+		lfs[i] = 10 * (i + 1)
+	}
+	x := verif.Int("x")
+	verif.Assume(x >= 0)
+	// the symbolic entry is the last one of either table (the last line feed
+	// is the final byte sequence of the dump)
+	if nlf == 0 || verif.Choice("where", 2) == 0 {
+		positions[npos-1] = x
+	} else {
+		verif.Assume(x >= 10*nlf)
+		lfs[nlf-1] = x
+	}
+	out, log := &symio.Writer{}, &symio.Writer{}
+	p := bcl.VerifNewProg("prog", []byte{1}, nil, positions, lfs, out, log)
+	var d1 bytes.Buffer
+	err := p.Dump(&d1)
+	verif.Assert(err == nil, "dump succeeds")
+	mode := verif.Choice("reader", 3)
+	out2, log2 := &symio.Writer{}, &symio.Writer{}
+	p2, err := bcl.LoadProg(c09Reader(d1.Bytes(), mode), "prog", bcl.OptOutput(out2), bcl.OptLogger(log2))
+	verif.Observe("loaderr", err)
+	verif.Assert(err == nil, "load of a complete dump succeeds")
+	if err != nil {
+		return
+	}
+	verif.Reach("loaded")
+	pos2, lfs2 := bcl.VerifPositions(p2), bcl.VerifLfs(p2)
+	verif.Assert(len(pos2) == npos && len(lfs2) == nlf, "table sizes preserved")
+	for i := range pos2 {
+		verif.Assert(pos2[i] == positions[i], "position entry preserved")
+	}
+	for i := range lfs2 {
+		verif.Assert(lfs2[i] == lfs[i], "line-feed entry preserved")
+	}
+	var d2 bytes.Buffer
+	err = p2.Dump(&d2)
+	verif.Assert(err == nil && bytes.Equal(d1.Bytes(), d2.Bytes()), "dump of the loaded program is byte-identical")
+	verif.Reach("compared")
+}
